@@ -12,7 +12,7 @@ interval (np.clip is the identity, the clip mask is 1), floored quantities stric
 import ast
 from fractions import Fraction as Fr
 
-from .e8_index import (Poly, Unsupported, fresh, dim_of, subst, mk_sum, mk_pow, mk_log, mk_abs, mk_sign, mk_delta, mk_var, mk_lt, mk_exp, mk_step)
+from .e8_index import (Poly, Unsupported, fresh, dim_of, subst, mk_sum, mk_pow, mk_log, mk_abs, mk_sign, mk_delta, mk_var, mk_lt, mk_exp, mk_step, mk_ind)
 from .pm import norm_src
 
 
@@ -295,7 +295,32 @@ class TermInterp:
         return None
 
     def block(self, stmts):
-        for s in stmts:
+        for k, s in enumerate(stmts):
+            if isinstance(s, ast.If) and getattr(self, "loops", []):
+                c = self.ev(s.test)
+                if isinstance(c, TArr) and c.mask and c.shape == ():
+                    # data-dependent branch inside a loop: its statements contribute under the indicator of the branch
+                    saved = getattr(self, "guard", None)
+                    if len(s.body) == 1 and isinstance(s.body[0], ast.Continue) and not s.orelse:
+                        self.guard = binop("mul", saved, binop("sub", 1, c)) if saved is not None else binop("sub", 1, c)
+                        try:
+                            self.block(stmts[k + 1:])
+                        finally:
+                            self.guard = saved
+                        return
+                    self.guard = binop("mul", saved, c) if saved is not None else c
+                    try:
+                        self.block(s.body)
+                    finally:
+                        self.guard = saved
+                    if s.orelse:
+                        nc = binop("sub", 1, c)
+                        self.guard = binop("mul", saved, nc) if saved is not None else nc
+                        try:
+                            self.block(s.orelse)
+                        finally:
+                            self.guard = saved
+                    continue
             self.stmt(s)
 
     def stmt(self, s):
@@ -458,6 +483,9 @@ class TermInterp:
                 if base.shape[q] != x.dim:
                     raise Unsupported("index of another axis size")
                 term = term * mk_delta(ph(x.dim, q), x.name)
+        g = getattr(self, "guard", None)
+        if g is not None:
+            term = term * scalar(g).term
         loops[-1]["scatter"].setdefault(name, []).append((kind, TArr(base.shape, term)))
         return True
 
@@ -551,6 +579,9 @@ class TermInterp:
                 return v
             if isinstance(e.op, ast.Not) and isinstance(v, bool):
                 return not v
+            if isinstance(e.op, ast.Not) and isinstance(v, TArr) and v.mask:
+                r = binop("sub", 1, v)
+                return TArr(r.shape, r.term, mask=True)
             raise Unsupported("unary operator")
         if isinstance(e, ast.BinOp):
             a, b = self.ev(e.left), self.ev(e.right)
@@ -597,6 +628,14 @@ class TermInterp:
             vals = [self.ev(v) for v in e.values]
             if all(isinstance(v, bool) for v in vals):
                 return all(vals) if isinstance(e.op, ast.And) else any(vals)
+            if all(isinstance(v, TArr) and v.mask and v.shape == () for v in vals):
+                acc = vals[0]
+                for v in vals[1:]:
+                    if isinstance(e.op, ast.And):
+                        acc = binop("mul", acc, v)
+                    else:
+                        acc = binop("sub", binop("add", acc, v), binop("mul", acc, v))
+                return TArr((), acc.term, mask=True)
             raise Unsupported("boolean operator on non-constants")
         if isinstance(e, ast.Subscript):
             return self.subscript(e)
@@ -623,6 +662,11 @@ class TermInterp:
                 # zero test of a floored quantity: empty off the diagonal at a generic point; the diagonal of a pairwise
                 # distance (term vanishing identically when the two indices coincide) is zero
                 return TArr(a.shape, zero_locus(a), mask=True)
+            if self.mode == "objective" and isinstance(e.ops[0], (ast.Gt, ast.GtE, ast.Lt, ast.LtE)):
+                d = binop("sub", a, b)
+                if isinstance(e.ops[0], (ast.Lt, ast.LtE)):
+                    d = TArr(d.shape, -d.term)
+                return TArr(d.shape, mk_ind(d.term, ">=" if isinstance(e.ops[0], (ast.GtE, ast.LtE)) else ">"), mask=True)
             raise Unsupported(f"comparison {src[:60]}")
         if isinstance(a, (Poly, TArr)) or isinstance(b, (Poly, TArr)):
             pa = a.term if isinstance(a, TArr) and a.shape == () else (a if isinstance(a, Poly) else (Poly.const(a) if isinstance(a, (int, Fr)) else None))
@@ -666,7 +710,7 @@ class TermInterp:
                         if out.shape[pos] != iv.dim:
                             raise Unsupported("index of another axis size")
                         keep = [q for q in range(out.ndim) if q != pos]
-                        tmp = TArr([1 if q == pos else dd for q, dd in enumerate(out.shape)], subst(out.term, {ph(iv.dim, pos): iv.name}))
+                        tmp = TArr([1 if q == pos else dd for q, dd in enumerate(out.shape)], subst(out.term, {ph(iv.dim, pos): iv.name}), out.mask)
                         out = reindex(tmp, {q: (keep.index(q) if q in keep else None) for q in range(out.ndim)}, [out.shape[q] for q in keep])
                         continue
                 if isinstance(el, ast.Slice) and el.lower is None and el.upper is None and el.step is None:
@@ -843,6 +887,35 @@ class TermInterp:
             shp = v if isinstance(v, (tuple, list)) else (v,)
             dims = [_dim_of_size(s) or (1 if s == 1 else _unsup("numeric shape")) for s in shp]
             return TArr(dims, val)
+        if name == "einsum":
+            spec = A(0)
+            if not isinstance(spec, str) or "->" not in spec or "." in spec:
+                raise Unsupported("einsum without an explicit output")
+            ins, outs = spec.replace(" ", "").split("->")
+            ins = ins.split(",")
+            ops = [scalar(self.ev(a)) for a in c.args[1:]]
+            if len(ins) != len(ops):
+                raise Unsupported("einsum operands")
+            letter_dim = {}
+            letter_idx = {}
+            prod = Poly.const(1)
+            for sub, op in zip(ins, ops):
+                if len(sub) != op.ndim:
+                    raise Unsupported("einsum rank")
+                mp = {}
+                for pos, (ch, d) in enumerate(zip(sub, op.shape)):
+                    if d == 1:
+                        continue
+                    if letter_dim.setdefault(ch, d) != d:
+                        raise Unsupported("einsum letter used for two axis sizes")
+                    letter_idx.setdefault(ch, fresh(d))
+                    mp[ph(d, pos)] = letter_idx[ch]
+                prod = prod * subst(op.term, mp)
+            summed = [(letter_idx[ch], letter_dim[ch]) for ch in letter_idx if ch not in outs]
+            term = mk_sum(summed, prod) if summed else prod
+            shape = [letter_dim.get(ch, 1) for ch in outs]
+            term = subst(term, {letter_idx[ch]: ph(letter_dim[ch], pos) for pos, ch in enumerate(outs) if ch in letter_idx})
+            return TArr(shape, term)
         if name == "vstack":
             v = A(0)
             if isinstance(v, VecList) and isinstance(v.elem, TArr) and v.index is not None and v.elem.ndim == 1:
